@@ -1025,6 +1025,9 @@ func _expandFont(_ string, _ pr.Shortand, tokens []Token) ([]namedTokens, error)
 	token = tokens[len(tokens)-1]
 	tokens = tokens[:len(tokens)-1]
 	if lit, ok := token.(pa.Literal); ok && lit.Value == "/" {
+		if len(tokens) == 0 { // line-height is missing after the /
+			return nil, ErrInvalidValue
+		}
 		token = tokens[len(tokens)-1]
 		tokens = tokens[:len(tokens)-1]
 		if lineHeight([]Token{token}, "") == nil {
